@@ -284,8 +284,11 @@ impl<'a> WExec<'a> {
                     self.facts |= 1 << 2;
                 }
                 // the head response has now been serialised; nothing is lost
-                if !matches!(r, Ok(Ok(()))) {
-                    return self.fail("eintr-result", format!("an interrupted write must be reported as Ok (retry later), got {}", rs));
+                // (C06 names only zero-byte and non-interrupt errors as fatal: whatever an
+                // interrupted call returns, it must not report the connection closed or an
+                // invalid write; that nothing was lost is checked by the bytes that follow)
+                if matches!(r, Ok(Err(ConnectionError::ConnectionClosed))) || matches!(r, Ok(Err(ConnectionError::InvalidWrite))) {
+                    return self.fail("eintr-result", format!("an interrupted write is not fatal (retry later), got {}", rs));
                 }
             }
             WAct::Zero | WAct::Eagain | WAct::Epipe => {
